@@ -40,7 +40,8 @@ CLAUSE_PROPS = {
     "malformed_executed": ["C17"],
     "malformed_late": ["C17"],
     "malformed_effect": ["C17"],
-    "allocation": ["C17"],    # an in-space action executed as a different allocation
+    "allocation": ["C17", "C03"],    # an in-space action executed as a different allocation (other vector, other measure)
+    "lots_reached": ["C03"],  # a target in numbers of contracts is not the position held after its execution
     "out": [],                # unexpected outcome class of a call (classified further by the caller)
 }
 
@@ -117,7 +118,17 @@ class RecX(Feature):
         self.sink.add("x", event)
 
 
+class RecXInherited(RecX):
+    """A third observer whose callback is only inherited from its base class: a callback is a callback whether the class
+    defines it or inherits it."""
+
+    def __init__(self, sink):
+        Feature.__init__(self, name="verif-recx-inherited", save=False)
+        self.sink = sink
+
+
 N_ALLOC = 16
+LOTS = ("boxlots", "disclots")
 
 
 class World:
@@ -128,7 +139,7 @@ class World:
         self.grid = list(cfg["grid"])
         self.A, self.B = ETF("A"), ETF("B")
         self.contracts = {"A": self.A, "B": self.B}
-        self.sink, self.sinkx = Sink(), Sink()
+        self.sink, self.sinkx, self.sinkx2 = Sink(), Sink(), Sink()
         rnd = random.Random(seed)
         ts = [T(t, tick) for t in self.grid] + [T(self.grid[rnd.randrange(len(self.grid))], tick) for _ in range(2)]
         rnd.shuffle(ts)
@@ -148,6 +159,7 @@ class World:
                 ev = EventContractDiscontinued(T(e["t"], tick), self.contracts[e["c"]])
             self.sink.ids[id(ev)] = e["id"]
             self.sinkx.ids[id(ev)] = e["id"]
+            self.sinkx2.ids[id(ev)] = e["id"]
             self.events.append(ev)
         if extend:
             # the Transmitter first serves another environment with only the first half of the data (and is reset once),
@@ -164,6 +176,11 @@ class World:
             else:
                 tr.add_timesteps([t for t in ts if t > cutoff])
                 tr.add_events(list(self.events))
+        elif len(self.events) >= 3 and len(self.events) % 3 != 0:
+            # loaded in two batches that overlap in time (e.g. bars first, ticks later): the stream is the union of its batches
+            h = len(self.events) // 2
+            tr.add_events(list(self.events[:h]))
+            tr.add_events(list(self.events[h:]))
         else:
             tr.add_events(list(self.events))
         if cfg["space"] == "discrete":
@@ -172,6 +189,9 @@ class World:
             space = BoxPortfolio([impl.Cash(), self.A, self.B], low=0.0, high=1.0)
         elif cfg["space"] == "boxlots":
             space = BoxPortfolio([self.A, self.B], low=0.0, high=float(N_ALLOC), as_weights=False)
+        elif cfg["space"] == "disclots":
+            # a menu of allocations expressed in numbers of contracts
+            space = DiscretePortfolio([self.A, self.B], [[float(k), 0.0] for k in range(N_ALLOC)], as_weights=False)
         elif cfg["space"] == "boxpos":
             # bounds that exclude zero: the all-zero action is NOT a member of this space
             space = BoxPortfolio([self.A], low=1.0 / 32, high=1.0)
@@ -181,13 +201,14 @@ class World:
             # the same Transmitter served another environment first, configured with a different latency
             other = 0.0 if cfg["lat"] else float(min(b - a for a, b in zip(self.grid, self.grid[1:])) * tick) / 2.0
             TradingEnv(action_space=BoxPortfolio([self.A, self.B], low=0.0, high=1.0), transmitter=tr, latency=other)
-        feats = (extra_features(self) if extra_features else []) + [Rec(self.sink), RecX(self.sinkx)]
+        feats = (extra_features(self) if extra_features else []) + [Rec(self.sink), RecX(self.sinkx), RecXInherited(self.sinkx2)]
         self.env = TradingEnv(action_space=space, state=feats, transmitter=tr,
                               latency=float(cfg["lat"] * tick), steps_delay=cfg["delay"],
                               episode_length=(cfg["eplen"] or None), initial_cash=1000.0,
                               sampling_span=(3 if (cfg["eplen"] and len(cfg["events"]) % 2 == 0) else None))
         self.sink.env = self.env
         self.sinkx.env = self.env
+        self.sinkx2.env = self.env
         self.draw = None
 
     # ------------------------------------------------------------------ calls
@@ -214,6 +235,7 @@ class World:
         self.eff_eplen = (rl - 1) if rl else self.cfg["eplen"]
         self.sink.entries.clear()
         self.sinkx.entries.clear()
+        self.sinkx2.entries.clear()
         self.sink.exec = None
         self.draw = None
         orig = np.random.choice
@@ -242,7 +264,7 @@ class World:
         if j == 0 or not self.trade:
             return {}
         k = (j % (N_ALLOC - 1)) + 1
-        return {"A": float(k) if self.cfg["space"] == "boxlots" else k / 16.0}
+        return {"A": float(k) if self.cfg["space"] in LOTS else k / 16.0}
 
     def action(self, act):
         j, cls = act["id"], act["cls"]
@@ -250,7 +272,7 @@ class World:
         k = ((j % (N_ALLOC - 1)) + 1) if self.trade else 0
         hi = float(N_ALLOC) if sp == "boxlots" else 1.0
         unit = float(k) if sp == "boxlots" else k / 16.0
-        if sp == "discrete":
+        if sp in ("discrete", "disclots"):
             if cls == "ok":
                 return int(k)
             return {"shape": N_ALLOC, "above": N_ALLOC + 3, "below": -1, "nan": float("nan"), "index": 2.5}[cls]
@@ -269,6 +291,7 @@ class World:
     def step(self, act):
         self.sink.entries.clear()
         self.sinkx.entries.clear()
+        self.sinkx2.entries.clear()
         self.sink.exec = None
         a = self.action(act)
         try:
@@ -378,6 +401,9 @@ def compare_call(w, rec, out, val, soft, track_before, pos_before):
         ex = [r["id"] for r in rec["log"] if r["kind"] == "x" and r["id"] not in soft]
         if gx != ex:
             fails.append(("observer", "observer of the custom event type saw %s, spec %s" % (gx, ex)))
+        gx2 = [e["id"] for e in w.sinkx2.entries if e["id"] not in soft]
+        if gx2 != ex:
+            fails.append(("observer", "observer inheriting its callback for the custom event type saw %s, spec %s" % (gx2, ex)))
     now = _secs(w.env.now())
     if now != rec["now"]:
         fails.append(("clock", "env.now() = %s after the call, latest market event delivered is %s" % (now, rec["now"])))
@@ -395,9 +421,17 @@ def compare_call(w, rec, out, val, soft, track_before, pos_before):
                 if w.trade:
                     exp_alloc = w.expected_alloc(x["act"])
                     ga = got_x["alloc"]
-                    exp_measure = "NrContracts" if cfg["space"] == "boxlots" else "Weights"
+                    exp_measure = "NrContracts" if cfg["space"] in LOTS else "Weights"
                     if got_x.get("measure") != exp_measure:
                         fails.append(("allocation", "action executed as %s, the space denotes %s" % (got_x.get("measure"), exp_measure)))
+                    if got_x.get("fractional") is not True:
+                        fails.append(("allocation", "action executed in whole lots although the space was declared with fractional lots"))
+                    bk = x["books"].get("A")
+                    if cfg["space"] in LOTS and bk and bk["alive"] and bk["bid"] > 0 and isinstance(val, tuple):
+                        held = float(w.env.broker.holdings_quantity.get(w.A, 0.0))
+                        if abs(held - exp_alloc.get("A", 0.0)) > 1e-9:
+                            fails.append(("lots_reached", "target of %s contracts executed against a live book, position afterwards %r" % (
+                                exp_alloc.get("A", 0.0), held)))
                     if set(ga) != set(exp_alloc) or any(abs(ga[c] - exp_alloc[c]) > 1e-12 for c in ga):
                         msg = ("executed allocation %s at step %s, spec: the action submitted %d step(s) earlier "
                                "(id %s) denotes %s" % (ga, x["call"], cfg["delay"], x["act"], exp_alloc))
